@@ -389,12 +389,14 @@ def cipher_ob(prog, res, fi, alg, ctx, oid, title):
         modes_ = [e.data['callee'].split('.')[-1] for e in p.evs('ext-call') if '.modes.' in e.data['callee']]
         meths = [e.data['name'] for e in p.evs('method') if e.data['name'] in ('encryptor', 'decryptor')]
         fails = []
+        # nothing observed (the call is made through a table of unbound methods, a helper the analysis does not enter ...):
+        # not followed; something else observed: a violation
         if algs != [alg]:
-            fails.append(definite(f'cipher algorithm is {algs}, expected {alg}'))
+            fails.append(definite(f'cipher algorithm is {algs}, expected {alg}') if algs else soft('no cipher algorithm constructor observed'))
         if modes_ != ['ECB']:
-            fails.append(definite(f'cipher mode is {modes_}, expected ECB'))
+            fails.append(definite(f'cipher mode is {modes_}, expected ECB') if modes_ else soft('no cipher mode constructor observed'))
         if meths != [ctx]:
-            fails.append(definite(f'uses {meths}, expected .{ctx}()'))
+            fails.append(definite(f'uses {meths}, expected .{ctx}()') if meths else soft(f'no .encryptor() / .decryptor() call observed'))
         # the cipher key must be the caller's key material, whole and unmodified
         for e in p.evs('ext-call'):
             if e.data['callee'].split('.')[-1] in ('TripleDES', 'AES') and e.data['args']:
